@@ -710,3 +710,16 @@ func (a *FnAnalysis) FactsAt(b *ssa.BasicBlock) map[string]bool {
 	}
 	return out
 }
+
+// AcceptingReturns lists the return instructions that may report success
+// (nil error / true / no verdict result) with no assumption.
+func AcceptingReturns(fn *ssa.Function) map[*ssa.Return]bool {
+	a := Analyze(fn, AcceptSpec{})
+	out := map[*ssa.Return]bool{}
+	for _, in := range a.acceptSites() {
+		if r, ok := in.(*ssa.Return); ok {
+			out[r] = true
+		}
+	}
+	return out
+}
